@@ -274,7 +274,9 @@ func (e *Engine) builtin(st *state, fr *frame, in ssa.CallInstruction, name stri
 		if base, lo, hi, total, ok := byteArraySegment(args[0]); ok && hi > lo {
 			// the head of a field of a record laid out in a local array: src cut to the field's width, the rest of the
 			// field as it was (zero) until a fill loop says otherwise
-			stageSeg(st, base, lo, total, &Val{Op: "padded", Aux: hi - lo, Args: []*Val{e.contentOf(st, args[1]), nil}, Type: args[0].Type}, args[0].Type)
+			// – or the byte the whole field was pre-filled with (a blank record copied from a start-up constant)
+			pad := fillCovering(st, base, lo, hi)
+			stageSeg(st, base, lo, total, &Val{Op: "padded", Aux: hi - lo, Args: []*Val{e.contentOf(st, args[1]), pad}, Type: args[0].Type}, args[0].Type)
 		} else if !e.overlayCopy(st, args[0], args[1]) {
 			e.setContent(st, args[0], e.contentOf(st, args[1]))
 		}
@@ -1407,17 +1409,7 @@ func (e *Engine) model(st *state, fr *frame, in ssa.CallInstruction, fn *ssa.Fun
 					if off == 0 && total == int(sz) {
 						st.content[base.Key()] = seg
 					} else {
-						old := st.content[base.Key()]
-						stg := &Val{Op: "staged", Aux: total, Type: args[1].Type}
-						if old != nil && old.Op == "staged" {
-							for _, o := range old.Args {
-								if o.ID != off {
-									stg.Args = append(stg.Args, o)
-								}
-							}
-						}
-						stg.Args = append(stg.Args, seg)
-						st.content[base.Key()] = stg
+						stageSeg(st, base, off, total, seg, args[1].Type)
 					}
 					return one(st, nil), true
 				}
@@ -1923,6 +1915,13 @@ func stagedBlock(stg *Val) []*Val {
 		}
 		var w int
 		switch sg.Op {
+		case "fillseg":
+			// untouched bytes of the blank: zero bytes the size of a number are that number; anything else is not a field
+			if !isZero(sg.Args[0]) || !gap(sg.Aux.(int)) {
+				return nil
+			}
+			off = sg.ID + sg.Aux.(int)
+			continue
 		case "padded":
 			if len(sg.Args) != 2 || sg.Args[1] == nil {
 				return nil // the rest of the field was never filled
@@ -2015,8 +2014,22 @@ func stageSeg(st *state, base *Val, off, total int, seg *Val, t types.Type) {
 	seg.ID = off
 	old := stripCT(st.content[base.Key()])
 	stg := &Val{Op: "staged", Aux: total, Type: t}
+	w := segWidth(seg)
 	if old != nil && old.Op == "staged" {
 		for _, o := range old.Args {
+			if o.Op == "fillseg" {
+				// a run of one repeated byte the array started with: what the new segment covers is replaced, the rest stays
+				ow := o.Aux.(int)
+				if o.ID < off+w && off < o.ID+ow {
+					if o.ID < off {
+						stg.Args = append(stg.Args, &Val{Op: "fillseg", ID: o.ID, Aux: off - o.ID, Args: o.Args, Type: o.Type})
+					}
+					if o.ID+ow > off+w {
+						stg.Args = append(stg.Args, &Val{Op: "fillseg", ID: off + w, Aux: o.ID + ow - off - w, Args: o.Args, Type: o.Type})
+					}
+					continue
+				}
+			}
 			if o.ID != off {
 				stg.Args = append(stg.Args, o)
 			}
@@ -2028,6 +2041,55 @@ func stageSeg(st *state, base *Val, off, total int, seg *Val, t types.Type) {
 	}
 	stg.Args = append(stg.Args, seg)
 	st.content[base.Key()] = stg
+}
+
+// segWidth: the number of bytes a staged segment occupies.
+func segWidth(seg *Val) int {
+	switch seg.Op {
+	case "padded", "fillseg":
+		if w, ok := seg.Aux.(int); ok {
+			return w
+		}
+	case "intbytes":
+		if sz, ok := fixedSize(seg.Type); ok {
+			return int(sz)
+		}
+	}
+	return 1
+}
+
+// fillCovering: the byte a staged array holds throughout [lo, hi) because it started with it there (a blank record
+// copied from a start-up constant) and nothing has been laid over that part since; nil otherwise.
+func fillCovering(st *state, base *Val, lo, hi int) *Val {
+	stg := stripCT(st.content[base.Key()])
+	if stg == nil || stg.Op != "staged" {
+		return nil
+	}
+	var cover *Val
+	for _, o := range stg.Args {
+		ow := segWidth(o)
+		if o.ID < hi && lo < o.ID+ow { // overlaps
+			if o.Op != "fillseg" || o.ID > lo || o.ID+ow < hi {
+				return nil
+			}
+			cover = o.Args[0]
+		}
+	}
+	return cover
+}
+
+// stagedFromBytes: a local byte array assigned a constant whole: runs of equal bytes.
+func stagedFromBytes(b []byte, t types.Type) *Val {
+	stg := &Val{Op: "staged", Aux: len(b), Type: t}
+	for i := 0; i < len(b); {
+		j := i
+		for j < len(b) && b[j] == b[i] {
+			j++
+		}
+		stg.Args = append(stg.Args, &Val{Op: "fillseg", ID: i, Aux: j - i, Args: []*Val{mkConst(constant.MakeInt64(int64(b[i])), types.Typ[types.Uint8])}, Type: t})
+		i = j
+	}
+	return stg
 }
 
 // byteArraySegment: sl is arr[lo:hi] over a local [N]byte array with constant bounds.
